@@ -2,7 +2,7 @@
    Model: Model/Design.v (set_data_comp / set_data_term / set_data_gterm mirror Variable / Call /
    Term / GroupSpecificTerm .set_data and .labels; row_kron mirrors get_interaction_matrix).
    A labelled row pairs each column label with the entry of that column on one observation. *)
-From Verif Require Import Base Coding Contrasts Frame Eval Design DesignStructure DesignCoding.
+From Verif Require Import Base Coding Contrasts Frame Eval Design DesignStructure DesignCoding DesignSum.
 From Verif Require Tie.
 Local Close Scope Qc_scope.
 Local Close Scope Q_scope.
@@ -64,6 +64,55 @@ Theorem C04_term_labels_columns :
         List.length labs = List.length (nth i (dt_rows dt) []).
 Proof. exact set_data_term_plain_lrow. Qed.
 
+(* Sum coding: over duplicate-free levels lv with omitted level o (the given one, the LAST level by
+   default) the reduced columns are labelled by the levels other than o and hold 1 at the own level, -1 at
+   o, 0 elsewhere; the full coding adds a first column [mean]. *)
+Theorem C04_sum_code_row : forall omit spans lv cm x,
+  NoDup lv -> code (Sum omit) spans lv = Ok cm -> (spans = true -> lv <> []) ->
+  let o := sum_omitted omit lv in
+  clabels cm = sum_labels spans (without o lv) /\
+  code_row (cmatrix cm) (contrast_width cm) (index_of x lv) = sum_row spans lv o x (without o lv) /\
+  (lv <> [] -> In o lv).
+Proof. exact sum_code_row. Qed.
+
+(* a term made of numeric, Treatment-coded or Sum-coded components: the labelled row of the term is the
+   labelled product (left factor slowest) of the labelled rows of its components ... *)
+Theorem C04_coded_term_labels_columns : forall nrows name cs s dt,
+  Forall coded_comp cs ->
+  set_data_term nrows (TTTerm name cs) s = Ok dt ->
+  exists d0 rest labs,
+    dt_comps dt = d0 :: rest /\ dt_labels dt = Some labs /\
+    forall i, Forall (fun d => i < List.length (dc_rows d)) (dt_comps dt) ->
+      combine labs (nth i (dt_rows dt) [])
+      = fold_left (lprod ":") (map (comp_lrow i) rest) (comp_lrow i d0)
+      /\ List.length labs = List.length (nth i (dt_rows dt) []).
+Proof. exact set_data_term_coded_lrow. Qed.
+
+(* ... and in closed form: column j = (j0, js) in mixed radix carries the label made of the pieces'
+   labels joined by ":" and holds, on row i, the product of what the pieces denote on that row (numeric
+   value / level indicator / sum contrast value / [mean]). *)
+Theorem C04_every_column_holds_what_its_label_says : forall nrows name c0 crest s dt i j0 js p0 ps,
+  Forall coded_comp (c0 :: crest) ->
+  set_data_term nrows (TTTerm name (c0 :: crest)) s = Ok dt ->
+  Forall (fun c => i < comp_nrows c) (c0 :: crest) ->
+  let sp c := spans_for s (tc_name c) in
+  nth_error (comp_pieces c0 (sp c0)) j0 = Some p0 ->
+  Forall2 (fun jc p => nth_error (comp_pieces (snd jc) (sp (snd jc))) (fst jc) = Some p)
+          (combine js crest) ps ->
+  List.length js = List.length crest ->
+  let j := mixed_index j0 js (map (fun c => List.length (comp_pieces c (sp c))) crest) in
+  exists labs,
+    dt_labels dt = Some labs /\
+    nth_error labs j
+    = Some (fold_left (fun a b => (a ++ ":" ++ b)%string)
+                      (map (fun cp => piece_label (tc_name (fst cp)) (snd cp)) (combine crest ps))
+                      (piece_label (tc_name c0) p0)) /\
+    nth_error (nth i (dt_rows dt) []) j
+    = Some (fold_left cmul
+                      (map (fun cp => denote_piece (snd cp) (comp_datum (fst cp) i)) (combine crest ps))
+                      (denote_piece p0 (comp_datum c0 i))).
+Proof. exact set_data_term_coded_entry. Qed.
+
 (* levels of unordered data are sorted and duplicate-free, declared orders are kept *)
 Theorem C04_levels_nodup : forall num l, NoDup (sort_levels num l).
 Proof. exact sort_levels_NoDup. Qed.
@@ -71,3 +120,6 @@ Proof. exact sort_levels_NoDup. Qed.
 Print Assumptions C04_labelled_product.
 Print Assumptions C04_treatment_indicator.
 Print Assumptions C04_term_labels_columns.
+Print Assumptions C04_sum_code_row.
+Print Assumptions C04_coded_term_labels_columns.
+Print Assumptions C04_every_column_holds_what_its_label_says.
